@@ -44,6 +44,13 @@ type jaObs struct {
 	Diags []dg
 }
 
+// childObs: Content(child schema) on the Body of one returned block
+type childObs struct {
+	Expanded bool // the Go body is a dynblock expandBody
+	O        obs
+	body     hcl.Body
+}
+
 var quoted = regexp.MustCompile(`"([^"]*)"`)
 var blockOf = regexp.MustCompile(`represents the (.*) block's `)
 
@@ -152,6 +159,27 @@ func coqObs(o obs) string {
 }
 func coqJA(o jaObs) string {
 	return fmt.Sprintf("(%s, %s)", coqStrList(o.Names), coqDiags(o.Diags))
+}
+
+func coqChildren(cs []childObs) string {
+	out := make([]string, len(cs))
+	for i, c := range cs {
+		out[i] = fmt.Sprintf("(%s, %s)", hv.CoqBool(c.Expanded), coqObs(c.O))
+	}
+	return hv.CoqList(out)
+}
+
+func observeChildren(c *hcl.BodyContent, child Schema) []childObs {
+	var out []childObs
+	for _, b := range c.Blocks {
+		cc, ds := b.Body.Content(toHCLSchema(child))
+		out = append(out, childObs{
+			Expanded: strings.Contains(fmt.Sprintf("%T", b.Body), "expandBody"),
+			O:        observe(cc, ds),
+			body:     b.Body,
+		})
+	}
+	return out
 }
 
 func toHCLSchema(s Schema) *hcl.BodySchema {
@@ -283,10 +311,11 @@ type histResult struct {
 	JA0   jaObs
 	Steps []obs   // one per part (the last one is Content)
 	JAs   []jaObs // JustAttributes of the remainder after every partial step
+	Kids  [][]childObs
 }
 
 // runHistory: PartialContent(parts[0..split-1]) then Content(union(parts[split..])).
-func runHistory(body hcl.Body, parts []Schema, split int) (res histResult, panicked any) {
+func runHistory(body hcl.Body, parts []Schema, split int, child *Schema) (res histResult, panicked any) {
 	defer func() {
 		if p := recover(); p != nil {
 			panicked = p
@@ -298,10 +327,16 @@ func runHistory(body hcl.Body, parts []Schema, split int) (res histResult, panic
 		c, rem, ds := cur.PartialContent(toHCLSchema(parts[i]))
 		res.Steps = append(res.Steps, observe(c, ds))
 		res.JAs = append(res.JAs, observeJA(rem))
+		if child != nil {
+			res.Kids = append(res.Kids, observeChildren(c, *child))
+		}
 		cur = rem
 	}
 	c, ds := cur.Content(toHCLSchema(unionSchema(parts[split:])))
 	res.Steps = append(res.Steps, observe(c, ds))
+	if child != nil {
+		res.Kids = append(res.Kids, observeChildren(c, *child))
+	}
 	return
 }
 
@@ -418,7 +453,7 @@ func oracle(cs *CaseSpec, pf []parsedFile, main histResult, f *failer, input str
 	k := len(cs.Parts)
 	// (O1) the two-step law at every split point, against one exhaustive step
 	if !cs.Overlap {
-		full, p := runHistory(buildBody(cs, pf), cs.Parts, 0)
+		full, p := runHistory(buildBody(cs, pf), cs.Parts, 0, nil)
 		if p != nil {
 			f.fail("panic", "content-union", fmt.Sprint(p), input)
 			return
@@ -430,7 +465,7 @@ func oracle(cs *CaseSpec, pf []parsedFile, main histResult, f *failer, input str
 				h = main
 			} else {
 				var p any
-				h, p = runHistory(buildBody(cs, pf), cs.Parts, split)
+				h, p = runHistory(buildBody(cs, pf), cs.Parts, split, nil)
 				if p != nil {
 					f.fail("panic", "history", fmt.Sprint(p), input)
 					continue
@@ -472,6 +507,66 @@ func oracle(cs *CaseSpec, pf []parsedFile, main histResult, f *failer, input str
 				sort.Strings(onlyU)
 				sort.Strings(onlyH)
 				f.fail("two-step-differs", "diagnostics", fmt.Sprintf("split after %d parts: only in one step %v, only in steps %v", split, onlyU, onlyH), input)
+			}
+		}
+	}
+
+	// (O1c) one level down: the two-step law on the Body of every returned block
+	{
+		var c1, c2 Schema
+		for i, a := range cs.Child.Attrs {
+			if i%2 == 0 {
+				c1.Attrs = append(c1.Attrs, a)
+			} else {
+				c2.Attrs = append(c2.Attrs, a)
+			}
+		}
+		for i, b := range cs.Child.Blocks {
+			if i%2 == 1 {
+				c1.Blocks = append(c1.Blocks, b)
+			} else {
+				c2.Blocks = append(c2.Blocks, b)
+			}
+		}
+		if partsDisjoint([]Schema{c1, c2}) {
+			for _, ks := range main.Kids {
+				for _, kd := range ks {
+					func() {
+						defer func() {
+							if p := recover(); p != nil {
+								f.fail("panic", "child-history", fmt.Sprint(p), input)
+							}
+						}()
+						one, p1 := runHistory(kd.body, []Schema{c1, c2}, 0, nil)
+						two, p2 := runHistory(kd.body, []Schema{c1, c2}, 1, nil)
+						if p1 != nil || p2 != nil {
+							f.fail("panic", "child-history", fmt.Sprint(p1, p2), input)
+							return
+						}
+						rep.Hist("oracle:child-two-step-checked")
+						ua, ub, ud := accumulate(one.Steps)
+						ha, hb, hd := accumulate(two.Steps)
+						same := sameStrings(ua, ha) && len(ud) == len(hd)
+						for d := range ud {
+							if !hd[d] {
+								same = false
+							}
+						}
+						for t := range ub {
+							if !sameStrings(ub[t], hb[t]) {
+								same = false
+							}
+						}
+						for t := range hb {
+							if !sameStrings(ub[t], hb[t]) {
+								same = false
+							}
+						}
+						if !same {
+							f.fail("two-step-differs", "child-body", fmt.Sprintf("body of a returned %T: one step %v / %v / %v, two steps %v / %v / %v", kd.body, ua, ub, ud, ha, hb, hd), input)
+						}
+					}()
+				}
 			}
 		}
 	}
@@ -548,6 +643,17 @@ func oracle(cs *CaseSpec, pf []parsedFile, main histResult, f *failer, input str
 			f.fail("item-lost", class, fmt.Sprintf("after %d partial steps the remainder's JustAttributes lacks %v (has %v)", i+1, lost, ja.Names), input)
 		}
 		if len(extra) > 0 {
+			onlyBlockNames := true
+			for _, n := range extra {
+				if attrEntry(n, i+1) || !blockEntry(n, i+1) {
+					onlyBlockNames = false
+				}
+			}
+			if onlyBlockNames {
+				rep.Hist("detail:remainder-extra:names-consumed-as-block-types-only")
+			} else {
+				rep.Hist("detail:remainder-extra:includes-names-consumed-as-attributes")
+			}
 			f.fail("extra-item", class, fmt.Sprintf("after %d partial steps the remainder's JustAttributes returns %v, which an earlier step consumed (or which do not exist)", i+1, extra), input)
 		}
 		// a remainder whose blocks were all consumed must not complain about blocks
@@ -561,6 +667,11 @@ func oracle(cs *CaseSpec, pf []parsedFile, main histResult, f *failer, input str
 			if all {
 				for _, d := range ja.Diags {
 					if d.Kind == "UnexpectedBlock" {
+						if anyExpand(cs) {
+							rep.Hist("detail:consumed-block-reported:under-expand")
+						} else {
+							rep.Hist("detail:consumed-block-reported:plain-native")
+						}
 						f.fail("extra-item", "justattributes-reports-consumed-block", fmt.Sprintf("after %d partial steps every block is consumed, yet remain.JustAttributes reports an unexpected %q block", i+1, d.Name), input)
 					}
 				}
@@ -640,6 +751,8 @@ func oracle(cs *CaseSpec, pf []parsedFile, main histResult, f *failer, input str
 		kk := es[0].Labels
 		skip := false
 		var exp []string
+		var expChild []*Cfg // the abstract body of each expected block
+		var expJSON []bool
 		for _, fi := range fileOrder(cs) {
 			fs := cs.Files[fi]
 			isJSON := pf[fi].native == nil
@@ -669,6 +782,8 @@ func oracle(cs *CaseSpec, pf []parsedFile, main histResult, f *failer, input str
 				if it.Type == t && it.Dyn == nil {
 					if isJSON || len(it.Labels) == kk {
 						exp = append(exp, strings.Join(it.Labels, "\x00"))
+						expChild = append(expChild, it.Body)
+						expJSON = append(expJSON, isJSON)
 					}
 				}
 				if it.Dyn != nil && it.Labels[0] == t && expandedFile(cs, fi) {
@@ -676,6 +791,8 @@ func oracle(cs *CaseSpec, pf []parsedFile, main histResult, f *failer, input str
 					if ok {
 						for n := 0; n < it.Dyn.N; n++ {
 							exp = append(exp, strings.Join(it.Dyn.Labels, "\x00"))
+							expChild = append(expChild, it.Body)
+							expJSON = append(expJSON, isJSON)
 						}
 					}
 				}
@@ -695,6 +812,45 @@ func oracle(cs *CaseSpec, pf []parsedFile, main histResult, f *failer, input str
 		}
 		rep.Hist("oracle:exactly-once-blocks-checked")
 		if sameStrings(exp, actual) {
+			// one level down: the attributes of every returned block's body
+			var kids []childObs
+			for i, st := range main.Steps {
+				for j, b := range st.Blocks {
+					if b.Type == t && i < len(main.Kids) && j < len(main.Kids[i]) {
+						kids = append(kids, main.Kids[i][j])
+					}
+				}
+			}
+			if len(kids) == len(expChild) {
+				for i, kd := range kids {
+					if expChild[i] == nil {
+						continue
+					}
+					want := map[string]bool{}
+					for _, it := range expChild[i].Items {
+						n := it.Attr
+						if !it.IsAttr() {
+							if !expJSON[i] {
+								continue
+							}
+							n = it.Type // JSON: any property can be read as an attribute
+						}
+						for _, a := range cs.Child.Attrs {
+							if a.Name == n {
+								want[n] = true
+							}
+						}
+					}
+					lost, extra, _ := diffNames(sortedKeys(want), kd.O.Attrs)
+					rep.Hist("oracle:child-exactly-once-checked")
+					if len(lost) > 0 {
+						f.fail("item-lost", "child-attributes", fmt.Sprintf("body of the %d. block of type %q: attributes %v exist and are named by the child schema but were not returned", i+1, t, lost), input)
+					}
+					if len(extra) > 0 {
+						f.fail("extra-item", "child-attributes", fmt.Sprintf("body of the %d. block of type %q: attributes %v were returned but are not in that body", i+1, t, extra), input)
+					}
+				}
+			}
 			continue
 		}
 		se, sa := sortedCopy(exp), sortedCopy(actual)
@@ -800,6 +956,10 @@ func corpus() []*CaseSpec {
 			Schema{Blocks: blk0}, Schema{Attrs: sa("a")}),
 		single(withCfg(hclFile("a = 1\nb = 2\n"), Item{Attr: "a", Val: 1}, Item{Attr: "b", Val: 2}), true,
 			Schema{Attrs: sa("a")}, Schema{Attrs: sa("b")}),
+		// the same two questions for a remainder of an Expand-wrapped body whose BLOCK was consumed
+		single(withCfg(hclFile("blk {}\n"), Item{Type: "blk", Body: &Cfg{}}), true, Schema{Blocks: blk0}, Schema{}),
+		single(withCfg(jsonFile(`{"blk": {}}`), Item{Type: "blk", Body: &Cfg{}}), true, Schema{Blocks: blk0}, Schema{}),
+		single(withCfg(jsonFile(`{"blk": {}}`), Item{Type: "blk", Body: &Cfg{}}), false, Schema{Blocks: blk0}, Schema{}),
 		single(jsonFile(`{"x": {"l": {}}}`), false, Schema{Blocks: []SBlock{{"x", 1}}}, Schema{Attrs: sa("x")}),
 		single(jsonFile(`{"x": {"l": {}}}`), false, Schema{Attrs: sa("x")}, Schema{Blocks: []SBlock{{"x", 1}}}),
 		merged([]FileSpec{hclFile("a = 1\n"), jsonFile(`{"b": 2, "a": 3}`)}, false, Schema{Attrs: sa("b!", "c!")}, Schema{Attrs: sa("a!")}),
@@ -881,7 +1041,7 @@ func runC04(cfg *hv.RunCfg) error {
 			continue
 		}
 		k := len(cs.Parts)
-		main, p := runHistory(buildBody(cs, pf), cs.Parts, k-1)
+		main, p := runHistory(buildBody(cs, pf), cs.Parts, k-1, &cs.Child)
 		if p != nil {
 			f.fail("panic", "history", fmt.Sprint(p), input)
 			continue
@@ -889,10 +1049,10 @@ func runC04(cfg *hv.RunCfg) error {
 		// the Coq case
 		var steps []string
 		for i := 0; i < k-1; i++ {
-			steps = append(steps, fmt.Sprintf("(%s, %s, %s)", coqSchema(cs.Parts[i]), coqObs(main.Steps[i]), coqJA(main.JAs[i])))
+			steps = append(steps, fmt.Sprintf("(%s, %s, %s, %s)", coqSchema(cs.Parts[i]), coqObs(main.Steps[i]), coqJA(main.JAs[i]), coqChildren(main.Kids[i])))
 		}
-		cf.Add(fmt.Sprintf("Case (%s) %s %s (%s, %s)", coqBody(cs, pf), coqJA(main.JA0), hv.CoqList(steps),
-			coqSchema(cs.Parts[k-1]), coqObs(main.Steps[k-1])))
+		cf.Add(fmt.Sprintf("Case (%s) (%s) %s %s (%s, %s, %s)", coqBody(cs, pf), coqSchema(cs.Child), coqJA(main.JA0), hv.CoqList(steps),
+			coqSchema(cs.Parts[k-1]), coqObs(main.Steps[k-1]), coqChildren(main.Kids[k-1])))
 		rep.Idx(input)
 		nitems, nentries := 0, 0
 		for _, fs := range cs.Files {
@@ -930,6 +1090,20 @@ func runC04(cfg *hv.RunCfg) error {
 		for _, ja := range main.JAs {
 			for _, d := range ja.Diags {
 				rep.Hist("ja-diag:" + d.Kind)
+			}
+		}
+		for _, ks := range main.Kids {
+			for _, kd := range ks {
+				rep.Hist("child:content-applied")
+				if kd.Expanded {
+					rep.Hist("child:expand-wrapped")
+				}
+				if len(kd.O.Attrs)+len(kd.O.Blocks) > 0 {
+					rep.Hist("child:returns-items")
+				}
+				for _, d := range kd.O.Diags {
+					rep.Hist("child-diag:" + d.Kind)
+				}
 			}
 		}
 		oracle(cs, pf, main, f, input, rep)
